@@ -25,9 +25,15 @@ var midiCmdPort = &cobra.Command{
 var midiCmdPortOut = &cobra.Command{
 	Use:   "out",
 	Short: `show out ports`,
-	RunE: func(_ *cobra.Command, _ []string) error {
+	RunE: func(cmd *cobra.Command, _ []string) error {
+		// the output goes where -o says, like the output of every other command
+		out, err := getOutput(cmd)
+		if err != nil {
+			return err
+		}
+		defer out.Close()
 		for _, x := range midix.GetOutPortNames() {
-			if _, err := fmt.Println(x); err != nil {
+			if _, err := fmt.Fprintln(out, x); err != nil {
 				return err
 			}
 		}
@@ -38,9 +44,15 @@ var midiCmdPortOut = &cobra.Command{
 var midiCmdPortIn = &cobra.Command{
 	Use:   "in",
 	Short: `show in ports`,
-	RunE: func(_ *cobra.Command, _ []string) error {
+	RunE: func(cmd *cobra.Command, _ []string) error {
+		// the output goes where -o says, like the output of every other command
+		out, err := getOutput(cmd)
+		if err != nil {
+			return err
+		}
+		defer out.Close()
 		for _, x := range midix.GetInPortNames() {
-			if _, err := fmt.Println(x); err != nil {
+			if _, err := fmt.Fprintln(out, x); err != nil {
 				return err
 			}
 		}
